@@ -208,23 +208,39 @@ func checkC02(e *Engine, r *Report) {
 		ok := len(gs) == 1 && isFieldRead(gs[0].Common().Args[0], "cStateDb", "originalCtx") && resolveLocal(gs[0].Common().Args[1]) == ssa.Value(fn.Params[1]) && resolveLocal(gs[0].Common().Args[2]) == ssa.Value(fn.Params[2])
 		r.Check(ok, "x/evm/vm.cStateDb.GetCommittedState › reads the original context", e.Pos(fn.Pos()), "evmKeeper.GetState(d.originalCtx, address, hash)", "committed storage is not read from the pre-transaction context for the requested (address, slot): SSTORE net-gas metering sees the wrong original value")
 		txScoped := map[string]bool{"selfDestructed": true, "touched": true, "refund": true, "accessList": true, "logs": true, "transientStorage": true, "snapshots": true}
+		inVM := func(f *ssa.Function) bool { return pkgPathOf(f) == pkgEvmVM }
 		okIf := true
 		why := ""
+		nIf := 0
+		// conditions of GetCommittedState and of the in-package helpers they are computed by (followed through call results)
+		condFns := map[*ssa.Function]bool{fn: true}
 		for _, i := range ifs(fn) {
-			sl := sliceFrom(i.Cond)
+			sl := backSlice(i.Cond, SliceOpts{ThroughCallArgs: alwaysThrough, IntoCallees: inVM, Depth: 3})
 			for v := range sl.Vals {
-				if fv := fieldVar(v); fv != nil && txScoped[fv.Name()] {
-					if fa, isFA := v.(*ssa.FieldAddr); isFA && namedTypeName(fa.X.Type()) == "cStateDb" {
-						okIf, why = false, fv.Name()
-					}
+				if in, isI := v.(ssa.Instruction); isI && in.Parent() != nil {
+					condFns[in.Parent()] = true
 				}
 			}
-			// only account-keeper facts
-			if !sl.Has(func(v ssa.Value) bool { c, ok := v.(*ssa.Call); return ok && isMethodNamed(c, "GetAccount") }) {
-				okIf, why = false, "a condition not derived from accountKeeper.GetAccount"
+		}
+		for f := range condFns {
+			for _, i := range ifs(f) {
+				nIf++
+				sl := backSlice(i.Cond, SliceOpts{ThroughCallArgs: alwaysThrough, IntoCallees: inVM, Depth: 3})
+				for v := range sl.Vals {
+					if fv := fieldVar(v); fv != nil && txScoped[fv.Name()] {
+						if fa, isFA := v.(*ssa.FieldAddr); isFA && namedTypeName(fa.X.Type()) == "cStateDb" {
+							okIf, why = false, fv.Name()
+						}
+					}
+				}
+				// only account-keeper facts
+				if !sl.Has(func(v ssa.Value) bool { c, ok := v.(*ssa.Call); return ok && isMethodNamed(c, "GetAccount") }) {
+					okIf, why = false, "a condition not derived from accountKeeper.GetAccount"
+				}
 			}
 		}
-		r.Check(okIf && len(ifs(fn)) == 3, "x/evm/vm.cStateDb.GetCommittedState › short-circuits depend on account identity only", e.Pos(fn.Pos()), "three account-identity tests", "GetCommittedState returns the empty value depending on transaction-scoped state ("+why+"): go-ethereum ignores e.g. the self-destructed mark here, so SSTORE gas/refund diverge")
+		// calls on tx-scoped trackers anywhere in those functions (e.g. d.selfDestructed.Has(addr)) are conditions too
+		r.Check(okIf && nIf >= 1, "x/evm/vm.cStateDb.GetCommittedState › short-circuits depend on account identity only", e.Pos(fn.Pos()), itoa(nIf)+" account-identity tests", "GetCommittedState returns the empty value depending on transaction-scoped state ("+why+"): go-ethereum ignores e.g. the self-destructed mark here, so SSTORE gas/refund diverge")
 		for _, g := range []struct{ m, callee string }{{"GetState", "GetState"}, {"GetCodeHash", "GetCodeHash"}, {"GetBalance", ""}, {"GetNonce", ""}} {
 			f := e.Fn(pkgEvmVM, "cStateDb."+g.m)
 			okG := true
@@ -259,48 +275,56 @@ func checkC02(e *Engine, r *Report) {
 		r.Check(okE, "cStateDb.Exist › true for self-destructed accounts", e.Pos(ex.Pos()), "selfDestructed ⇒ true", "a self-destructed account stops existing before commit (go-ethereum keeps it until the end of the transaction)")
 		sd := e.Fn(pkgEvmVM, "cStateDb.Selfdestruct6780")
 		okS := false
+		inVM := func(f *ssa.Function) bool { return pkgPathOf(f) == pkgEvmVM }
 		for _, c := range callsTo(sd, false, CallSpec{pkgEvmVM, "cStateDb", "Suicide"}) {
-			// dominated by a test that derives from the original-context account (nil or number mismatch)
-			var gs []Guard
-			for _, i := range ifs(sd) {
-				sl := sliceFrom(i.Cond)
-				if sl.Has(func(v ssa.Value) bool {
+			// the Suicide call is control-dependent on a test that derives (possibly through an in-package helper) from the
+			// account as seen by the original, pre-transaction context — directly, or through a flag variable (phi of constants)
+			// whose true edges are control-dependent on such a test
+			fromOriginal := func(i *ssa.If) bool {
+				sl := backSlice(i.Cond, SliceOpts{ThroughCallArgs: alwaysThrough, IntoCallees: inVM, Depth: 3})
+				return sl.Has(func(v ssa.Value) bool {
 					cc, ok := v.(*ssa.Call)
 					return ok && isMethodNamed(cc, "GetAccount") && callUsesCtxField(cc, "originalCtx")
-				}) || sl.Has(func(v ssa.Value) bool { _, isPhi := v.(*ssa.Phi); return isPhi }) {
-					gs = append(gs, Guard{If: i, Survive: 0}, Guard{If: i, Survive: 1})
-				}
+				})
 			}
-			_ = gs
-			// simpler: the flag variable feeding the final If is a phi of constants set under original-context tests
+			controlDep := func(blk *ssa.BasicBlock, i *ssa.If) bool {
+				b := i.Block()
+				if b.Succs[0] == b.Succs[1] {
+					return false
+				}
+				for k := 0; k < 2; k++ {
+					if !reachable(sd, sd.Blocks[0], map[edge]bool{{b.Index, b.Succs[k].Index}: true})[blk] {
+						return true
+					}
+				}
+				return false
+			}
 			for _, i := range ifs(sd) {
-				if phi, isPhi := i.Cond.(*ssa.Phi); isPhi && i.Block().Succs[0] == c.Block() {
+				if !controlDep(c.Block(), i) {
+					continue
+				}
+				if fromOriginal(i) {
+					okS = true
+				}
+				if phi, isPhi := i.Cond.(*ssa.Phi); isPhi {
 					all := true
 					for k, ev := range phi.Edges {
-						b, isK := constBool(ev)
-						if !isK {
-							all = false
+						if bv, isK := constBool(ev); isK && !bv {
 							continue
 						}
-						if b {
-							// the edge must come from a block dominated by an original-context test
-							pred := phi.Block().Preds[k]
-							dom := false
-							for _, j := range ifs(sd) {
-								sl := sliceFrom(j.Cond)
-								if sl.Has(func(v ssa.Value) bool {
-									cc, ok := v.(*ssa.Call)
-									return ok && isMethodNamed(cc, "GetAccount") && callUsesCtxField(cc, "originalCtx")
-								}) && (j.Block() == pred || j.Block().Dominates(pred)) {
-									dom = true
-								}
-							}
-							if !dom {
-								all = false
+						dep := false
+						for _, j := range ifs(sd) {
+							if fromOriginal(j) && (j.Block() == phi.Block().Preds[k] || controlDep(phi.Block().Preds[k], j)) {
+								dep = true
 							}
 						}
+						if !dep {
+							all = false
+						}
 					}
-					okS = all
+					if all {
+						okS = true
+					}
 				}
 			}
 		}
@@ -373,6 +397,7 @@ func checkC02(e *Engine, r *Report) {
 		}
 		// the dependency leaks zero addresses: the repository's warm-up loop must skip them
 		pf := e.Fn(pkgEvmVM, "cStateDb.prepareByGoEthereum")
+		preg := e.privateRegion(pf)
 		pre := ssa.Value(pf.Params[5])
 		isZero := func(v ssa.Value) bool {
 			v = resolveLocal(v)
@@ -387,17 +412,16 @@ func checkC02(e *Engine, r *Report) {
 			return false
 		}
 		n, okAll := 0, true
-		for _, c := range callsTo(pf, false, CallSpec{pkgEvmVM, "AccessList2", "AddAddress"}) {
+		for _, c := range preg.Calls(func(c ssa.CallInstruction) bool { return isCallTo(c, CallSpec{pkgEvmVM, "AccessList2", "AddAddress"}) }) {
 			arg := c.Common().Args[1]
-			if !sliceFrom(arg).HasValue(pre) {
+			if !preg.Slice(arg).HasValue(pre) {
 				continue
 			}
 			n++
-			isElem := func(v ssa.Value) bool {
-				return samePath(resolveLocal(v), resolveLocal(arg)) || resolveLocal(v) == resolveLocal(arg)
-			}
-			gs := eqGuards(pf, false, isElem, isZero)
-			if !mustPass(pf, c, gs) {
+			f := c.Parent()
+			isElem := func(v ssa.Value) bool { return samePath(resolveLocal(v), resolveLocal(arg)) || resolveLocal(v) == resolveLocal(arg) }
+			gs := eqGuards(f, false, isElem, isZero)
+			if !mustPass(f, c, gs) {
 				okAll = false
 			}
 		}
